@@ -1,34 +1,31 @@
 /-
   C02 — path navigation returns exactly the elements of the resource's FHIR JSON tree.
-  Step-level theorems on the model of `FieldExpression.Evaluate`; the schema-wide hypothesis
-  ("every element of every R4 message is found under its JSON name") is evaluated by the driver over
-  every real descriptor, and the real evaluator is compared with the model and with
-  google/fhir's JSON rendering on generated resources.
+  Step-level theorems on the model of `FieldExpression.Evaluate`, and a schema-wide theorem over
+  the regenerated descriptor table FP.Gen.NavSchema: every element of every R4 message type is
+  found, under its JSON name, at its own field.  The real evaluator is compared with the model
+  and with google/fhir's JSON rendering on generated resources.
 -/
 import FP.Model.Navigate
+import FP.Gen.NavSchema
 namespace FP.Props.C02
-open FP FP.Model
+open FP FP.Model FP.Gen.NavSchema
 
-/-- well-formed request: the name passes the camelCase gate, is the JSON name of field `f` of the
-    message, no field's proto name shadows it, and the special cases do not apply -/
-structure Reaches (name snake : String) (m : MsgDesc) (f : FieldDesc) : Prop where
-  gate : gateOk name m.dateLike = true
-  found : (m.fields.find? (fun g => g.proto == snake) = some f) ∨
-          (m.fields.find? (fun g => g.proto == snake) = none ∧
-            ¬ (snake == "reference" && m.isReference) = true ∧ ¬ (snake == "value" && m.dateLike) = true ∧
-            m.fields.find? (fun g => g.json == name) = some f)
-
-/-- an element name that reaches field `f` yields exactly the values stored under `f`, in order,
-    with choice wrappers replaced by the chosen value and contained resources by the resource -/
-theorem step_yields_field_values (name snake : String) (id : Nat) (m : MsgDesc) (f : FieldDesc)
-    (h : Reaches name snake m f) (hmsg : f.isMsg = true) :
+/-- an element name that lands on field `i` yields exactly the values stored under that field, in
+    order, with choice wrappers replaced by the chosen value and wrapped resources by the resource -/
+theorem step_yields_field_values (name snake : String) (id : Nat) (m : MsgDesc) (i : Nat) (f : FieldDesc)
+    (hg : gateOk name m.dateLike = true)
+    (hs : resolveSlot m.names m.isReference m.dateLike name snake = .field i)
+    (hf : m.fields[i]? = some f) (hmsg : f.isMsg = true) :
     fieldStep name snake id m = .ok (f.vals.flatMap unwrapChild) := by
-  unfold fieldStep
-  simp only [h.gate, Bool.not_true, Bool.false_eq_true, if_false]
-  rcases h.found with hf | ⟨hn, hr, hv, hj⟩
-  · simp [hf, fieldStep.emit, hmsg]
-  · simp only [hn]
-    simp only [hr, hv, if_false, hj, fieldStep.emit, hmsg, Bool.not_true, Bool.false_eq_true]
+  simp [fieldStep, hg, hs, hf, emit, hmsg]
+
+/-- the value field of a primitive yields the primitive's own System value -/
+theorem step_yields_primitive_value (name snake : String) (id : Nat) (m : MsgDesc) (i : Nat) (f : FieldDesc)
+    (hg : gateOk name m.dateLike = true)
+    (hs : resolveSlot m.names m.isReference m.dateLike name snake = .field i)
+    (hf : m.fields[i]? = some f) (hmsg : f.isMsg = false) (hp : m.primOk = true) :
+    fieldStep name snake id m = .ok [.prim id] := by
+  simp [fieldStep, hg, hs, hf, emit, hmsg, hp]
 
 /-- choice elements are reached by their base name and yield the chosen value -/
 theorem choice_yields_chosen (id c : Nat) : unwrapChild (.choice id (some c)) = [.node c] := rfl
@@ -37,23 +34,63 @@ theorem contained_transparent (id r : Nat) : unwrapChild (.contained id (some r)
 /-- an empty wrapper contributes no element (and no failure) -/
 theorem empty_wrapper_yields_nothing (id : Nat) : unwrapChild (.contained id none) = [] := rfl
 
+/-- a typed reference reads back as the synthesised string, exactly once -/
+theorem reference_reads_back (id s : Nat) (m : MsgDesc) (hr : m.isReference = true) (hd : m.dateLike = false)
+    (hn : findProto m.names "reference" = none) (hs : m.refString = some s) :
+    fieldStep "reference" "reference" id m = .ok [.synthRef s] := by
+  have hg : gateOk "reference" m.dateLike = true := by rw [hd]; decide
+  simp [fieldStep, hg, resolveSlot, hn, hr, hs]
+
+/-- a request lands nowhere exactly when no lookup of the chain finds a field and it is not one of
+    the synthesised names -/
+theorem resolve_invalid_iff (names : List (String × String)) (isRef dl : Bool) (name snake : String) :
+    resolveSlot names isRef dl name snake = .invalid ↔
+      (findProto names snake = none ∧ findJson names name = none ∧ findProto names (snake ++ "_value") = none ∧
+       ¬ (snake == "reference" && isRef) = true ∧ ¬ (snake == "value" && dl) = true) := by
+  unfold resolveSlot
+  constructor
+  · intro h
+    split at h
+    · simp at h
+    · rename_i h1
+      split at h
+      · simp at h
+      · rename_i hr
+        split at h
+        · simp at h
+        · rename_i hv
+          split at h
+          · simp at h
+          · rename_i h2
+            split at h
+            · simp at h
+            · rename_i h3
+              exact ⟨h1, h2, h3, hr, hv⟩
+  · rintro ⟨h1, h2, h3, hr, hv⟩
+    simp only [h1, h2, h3]
+    simp [hr, hv]
+
 /-- a name that is not an element of the type fails with ErrInvalidField instead of yielding empty -/
 theorem unknown_name_invalid_field (name snake : String) (id : Nat) (m : MsgDesc)
-    (h1 : m.fields.find? (fun g => g.proto == snake) = none)
-    (h2 : m.fields.find? (fun g => g.json == name) = none)
-    (h3 : m.fields.find? (fun g => g.proto == snake ++ "_value") = none)
-    (hr : ¬ (snake == "reference" && m.isReference) = true) (hv : ¬ (snake == "value" && m.dateLike) = true) :
+    (h : resolveSlot m.names m.isReference m.dateLike name snake = .invalid) :
     fieldStep name snake id m = .err "invalid-field" := by
   unfold fieldStep
   by_cases hg : gateOk name m.dateLike = true
-  · simp only [hg, Bool.not_true, Bool.false_eq_true, if_false, h1, hr, hv, h2, h3]
+  · simp [hg, h]
   · simp [hg]
 
-/-- snake_case and capitalised names are rejected -/
+/-- snake_case names are rejected -/
 theorem snake_name_rejected (name snake : String) (id : Nat) (m : MsgDesc) (h : name.toList.contains '_' = true) :
     fieldStep name snake id m = .err "invalid-field" := by
   have hg : gateOk name m.dateLike = false := by
     unfold gateOk; rw [h]; rfl
+  simp [fieldStep, hg]
+
+/-- the proto-only fields of the date/time primitives are not elements -/
+theorem hidden_date_fields_rejected (name snake : String) (id : Nat) (m : MsgDesc) (hd : m.dateLike = true)
+    (h : hiddenDateField name = true) : fieldStep name snake id m = .err "invalid-field" := by
+  have hg : gateOk name m.dateLike = false := by
+    unfold gateOk; rw [hd, h]; simp
   simp [fieldStep, hg]
 
 /-- same number, document order, repeated elements flattened: the step over a collection is the
@@ -89,8 +126,34 @@ theorem step_error_propagates (name snake : String) (pre : List (Nat × MsgDesc)
     simp only at ho
     rw [ho, this]
 
+/-! ### schema-wide: every element of every R4 message type is reachable under its JSON name -/
+
+def rowNames (m : NMsg) : List (String × String) := m.fields.map fun f => (f.proto, f.json)
+
+/-- field `i` of message `m` is an element (not a oneof member, not a hidden date field) ⇒ its JSON
+    name passes the gate and the lookup chain lands on field `i` itself -/
+def fieldOk (m : NMsg) (f : NField) (i : Nat) : Bool :=
+  f.inOneof || (m.dateLike && hiddenDateField f.json) ||
+  (gateOk f.json m.dateLike && resolveSlot (rowNames m) m.isReference m.dateLike f.json f.snake == .field i)
+
+def msgOk (m : NMsg) : Bool := m.wrapper || (m.fields.zipIdx.all fun p => fieldOk m p.1 p.2)
+
+theorem every_element_reachable : chunks.all (fun c => c.all msgOk) = true := by decide +kernel
+
+/-- the table is not trivially satisfied: it has messages that are not wrappers and fields that are elements -/
+theorem schema_nontrivial : (chunks.flatten.filter (fun m => !m.wrapper)).length ≥ 1000 ∧
+    (chunks.flatten.flatMap (fun m => m.fields.filter (fun f => !f.inOneof))).length ≥ 5000 := by decide +kernel
+
+/-- a described message whose field names are those of a schema row resolves requests as the row does -/
+theorem resolves_as_schema (m : MsgDesc) (n : NMsg) (hn : m.names = rowNames n) (hr : m.isReference = n.isReference)
+    (hd : m.dateLike = n.dateLike) (name snake : String) :
+    resolveSlot m.names m.isReference m.dateLike name snake = resolveSlot (rowNames n) n.isReference n.dateLike name snake := by
+  rw [hn, hr, hd]
+
 example : fieldStep "deceased" "deceased" 0
-    ⟨"Patient", false, false, none, [⟨"deceased", "deceased", false, true, [.choice 5 (some 6)]⟩]⟩ = .ok [.node 6] := by decide
-example : fieldStep "nosuch" "nosuch" 0 ⟨"Patient", false, false, none, []⟩ = .err "invalid-field" := by decide
+    ⟨"Patient", false, false, none, false, [⟨"deceased", "deceased", false, true, [.choice 5 (some 6)]⟩]⟩ = .ok [.node 6] := by decide
+example : fieldStep "nosuch" "nosuch" 0 ⟨"Patient", false, false, none, false, []⟩ = .err "invalid-field" := by decide
+example : fieldStep "lethalDose50" "lethal_dose_50" 0
+    ⟨"X", false, false, none, false, [⟨"lethal_dose50", "lethalDose50", false, true, [.plain 3]⟩]⟩ = .ok [.node 3] := by decide
 
 end FP.Props.C02
